@@ -3,7 +3,7 @@ Schema 2.x crates, C09 side: the ordered lists `S : Ord` (driven through Spec.Or
 operations by `ordStep`) are represented (`R`) by the Playlist and PlaylistEntity
 tables after every operation — `ChInv` is preserved by `step` / `ordStep`.
 -/
-import Proofs.V2Forest
+import Proofs.V2Pairs
 
 set_option linter.dupNamespace false
 set_option linter.unusedSimpArgs false
@@ -140,21 +140,18 @@ theorem R_foldl_deleteCascade (G : List Int) : ∀ (L : List Int) (u : Table α)
       have hko : k ≠ old.key := fun e => hk (e ▸ hkey a (by simp) old hold hid)
       rw [setKey_other _ _ hka, setKey_other _ _ hko]
 
-/-- database::remove_track's loop over the lists `L` (pairwise different): in each, the entry of track `tv`
-(the last such row, as playlist_entity_table::get reads it) is deleted. -/
-theorem R_foldl_removeTrack (fires : Row V2.Ent → Bool)
-    (hv : ∀ r r' : Row V2.Ent, r.val = r'.val → fires r = fires r')
-    (tv : Int) : ∀ (L : List Int), L.Nodup → ∀ (pe : Table V2.Ent) (B : Int → List Int), R B pe → (∀ r ∈ pe, fires r = true) →
-    let step := fun (pe : Table V2.Ent) (l : Int) =>
-      match (pe.filter (fun r => r.key == l && r.val.track == tv)).getLast? with
-      | some e => deleteKeyed fires pe l e.id
-      | none => pe
+/-- database::remove_track's loop over the lists `L` (pairwise different): in each, the entry of track `tv` of
+this database (the last such row, as playlist_entity_table::get reads it) is deleted. -/
+theorem R_foldl_removeTrack (tv : Int) : ∀ (L : List Int), L.Nodup → ∀ (pe : Table V2.Ent) (B : Int → List Int), R B pe →
+    (∀ r ∈ pe, V2.fires r = true) →
     R (fun l => if L.contains l then
-          (match (pe.filter (fun r => r.key == l && r.val.track == tv)).getLast? with
+          (match V2.lookup pe l tv 0 with
            | some e => (B l).erase e.id
            | none => B l)
-        else B l) (L.foldl step pe) ∧
-    (∀ r ∈ L.foldl step pe, fires r = true) ∧ (∀ i ∈ ids (L.foldl step pe), i ∈ ids pe) := by
+        else B l) (L.foldl (V2.rmTrackIn tv) pe) ∧
+    (∀ r ∈ L.foldl (V2.rmTrackIn tv) pe, V2.fires r = true) ∧ (∀ i ∈ ids (L.foldl (V2.rmTrackIn tv) pe), i ∈ ids pe) := by
+  have hv : ∀ r r' : Row V2.Ent, r.val = r'.val → V2.fires r = V2.fires r' := by
+    intro r r' h; simp [V2.fires, h]
   intro L
   induction L with
   | nil => intro _ pe B h hf; simpa using ⟨h, hf⟩
@@ -162,12 +159,18 @@ theorem R_foldl_removeTrack (fires : Row V2.Ent → Bool)
     intro hnd pe B h hf
     have hnd' := List.nodup_cons.mp hnd
     simp only [List.foldl_cons]
-    -- the first list
-    have hlook : ∀ (p : Table V2.Ent) (l : Int), p.filter (fun r => r.key == l && r.val.track == tv) = (rowsOf p l).filter (fun r => r.val.track == tv) := by
-      intro p l; unfold rowsOf; rw [List.filter_filter]
-      apply List.filter_congr; intro r _; exact Bool.and_comm _ _
-    cases hl : (pe.filter (fun r => r.key == a && r.val.track == tv)).getLast? with
+    have hlook : ∀ (p : Table V2.Ent) (l : Int), V2.lookup p l tv 0
+        = ((rowsOf p l).filter (fun r => r.val.track == tv && r.val.uuid == 0)).getLast? := by
+      intro p l; unfold V2.lookup rowsOf; rw [List.filter_filter]
+      congr 1
+      apply List.filter_congr; intro r _
+      cases (r.key == l) <;> cases (r.val.track == tv) <;> cases (r.val.uuid == 0) <;> rfl
+    have hstep : V2.rmTrackIn tv pe a = (match V2.lookup pe a tv 0 with
+        | some e => deleteKeyed V2.fires pe a e.id
+        | none => pe) := rfl
+    cases hl : V2.lookup pe a tv 0 with
     | none =>
+      rw [hstep, hl]
       simp only
       obtain ⟨h1, h2, h3⟩ := ih hnd'.2 pe B h hf
       refine ⟨R_congr h1 ?_, h2, h3⟩
@@ -180,11 +183,12 @@ theorem R_foldl_removeTrack (fires : Row V2.Ent → Bool)
         rfl
       · rw [contains_cons_ne hla]
     | some e =>
+      rw [hstep, hl]
       simp only
-      have hpe1 := R_deleteKeyed h fires hf a e.id
-      have hf1 := deleteKeyed_fires fires hv hf a e.id
+      have hpe1 := R_deleteKeyed h V2.fires hf a e.id
+      have hf1 := deleteKeyed_fires V2.fires hv hf a e.id
       obtain ⟨h1, h2, h3⟩ := ih hnd'.2 _ _ hpe1 hf1
-      refine ⟨R_congr h1 ?_, h2, fun i hi => ids_deleteKeyed_sub fires pe a e.id i (h3 i hi)⟩
+      refine ⟨R_congr h1 ?_, h2, fun i hi => ids_deleteKeyed_sub V2.fires pe a e.id i (h3 i hi)⟩
       intro l
       show (if (a :: L).contains l = true then _ else _) = if L.contains l = true then _ else _
       by_cases hla : l = a
@@ -192,7 +196,7 @@ theorem R_foldl_removeTrack (fires : Row V2.Ent → Bool)
         have : L.contains l = false := by simpa using hnd'.1
         rw [contains_cons_self, this, hl, setKey_same]
         rfl
-      · rw [contains_cons_ne hla, hlook (deleteKeyed fires pe a e.id) l, rowsOf_deleteKeyed_other fires h.ids_nodup hla,
+      · rw [contains_cons_ne hla, hlook (deleteKeyed V2.fires pe a e.id) l, rowsOf_deleteKeyed_other V2.fires h.ids_nodup hla,
           ← hlook pe l, setKey_other _ _ hla]
 
 end EngineModel.Db.Chain
@@ -201,11 +205,14 @@ namespace EngineModel.Db.V2
 
 open EngineModel.Db.Chain EngineModel.Spec EngineModel.Spec.Forest EngineModel.ListAux
 
-/-- The chain invariant: the tables represent the ordered lists, the delete trigger of PlaylistEntity fires for
-every row, ids are within the AUTOINCREMENT counters. -/
+/-- The chain invariant: the tables represent the ordered lists (the entity table: the entity ids of the Spec's
+entries, every row carrying the payload the Spec recorded for it), no (list, database, track) triple twice, the
+delete trigger of PlaylistEntity fires for every row, ids are within the AUTOINCREMENT counters. -/
 structure ChInv (S : Ord) (d : Db) : Prop where
   rk : R S.kids d.pl
-  re : R S.ents d.pe
+  re : R S.entIds d.pe
+  pay : ∀ c ∈ cores d.pe, (c.1, c.2.2) ∈ S.ents c.2.1
+  pairs : PairsOk (cores d.pe)
   fires : ∀ r ∈ d.pe, fires r = true
   plSeq : ∀ i ∈ ids d.pl, i ≤ d.plSeq
   plSeq0 : 0 ≤ d.plSeq
@@ -218,14 +225,17 @@ theorem R_empty {α : Type} : R (fun _ => []) ([] : Table α) := by
   constructor <;> simp [ids]
 
 theorem chInv_empty : ChInv Ord.empty Db.empty := by
-  constructor <;> first | exact R_empty | simp [Db.empty, ids]
+  refine ⟨R_empty, R_empty, ?_, pairsOk_nil, ?_, ?_, ?_, ?_, ?_, ?_, ?_⟩ <;> simp [Db.empty, ids, cores]
 
 theorem fires_val (r r' : Row Ent) (h : r.val = r'.val) : fires r = fires r' := by
   simp [fires, h]
 
+/-- The Spec lists after `op`, the Spec forest being (by C07's refinement) the abstraction of the Playlist table. -/
+def ordStep (S : Ord) (d : Db) (op : Op) : Ord := ordNext S (absF d) op (step d op).2
+
 theorem ordStep_throw {S : Ord} {d : Db} {op : Op} {e : Exn} (h : step d op = (d, .throw e)) :
     ordStep S d op = S := by
-  unfold ordStep; rw [h]
+  unfold ordStep ordNext; rw [h]
 
 theorem chInv_throw {S : Ord} {d : Db} {op : Op} {e : Exn} (hI : ChInv S d) (h : step d op = (d, .throw e)) :
     ChInv (ordStep S d op) (step d op).1 := by
@@ -235,13 +245,106 @@ theorem chInv_throw {S : Ord} {d : Db} {op : Op} {e : Exn} (hI : ChInv S d) (h :
 theorem ChInv.withPl {S : Ord} {d : Db} (hI : ChInv S d) {K : Int → List Int} {pl : Table Bytes} {seq : Int}
     (hk : R K pl) (hs : ∀ i ∈ ids pl, i ≤ seq) (hs0 : 0 ≤ seq) :
     ChInv { S with kids := K } { d with pl := pl, plSeq := seq } :=
-  ⟨hk, hI.re, hI.fires, hs, hs0, hI.peSeq, hI.peSeq0, hI.trPos, hI.trSeq0⟩
+  ⟨hk, hI.re, hI.pay, hI.pairs, hI.fires, hs, hs0, hI.peSeq, hI.peSeq0, hI.trPos, hI.trSeq0⟩
 
 /-- A change of the PlaylistEntity table alone. -/
-theorem ChInv.withPe {S : Ord} {d : Db} (hI : ChInv S d) {E : Int → List Int} {pe : Table Ent} {seq : Int}
-    (he : R E pe) (hf : ∀ r ∈ pe, V2.fires r = true) (hs : ∀ i ∈ ids pe, i ≤ seq) (hs0 : 0 ≤ seq) :
+theorem ChInv.withPe {S : Ord} {d : Db} (hI : ChInv S d) {E : Int → List (Int × Ent)} {pe : Table Ent} {seq : Int}
+    (he : R (fun l => (E l).map (·.1)) pe) (hpay : ∀ c ∈ cores pe, (c.1, c.2.2) ∈ E c.2.1) (hp : PairsOk (cores pe))
+    (hf : ∀ r ∈ pe, V2.fires r = true) (hs : ∀ i ∈ ids pe, i ≤ seq) (hs0 : 0 ≤ seq) :
     ChInv { S with ents := E } { d with pe := pe, peSeq := seq } :=
-  ⟨hI.rk, he, hf, hI.plSeq, hI.plSeq0, hs, hs0, hI.trPos, hI.trSeq0⟩
+  ⟨hI.rk, he, hpay, hp, hf, hI.plSeq, hI.plSeq0, hs, hs0, hI.trPos, hI.trSeq0⟩
+
+/-! ### the Spec's entries against the rows -/
+
+theorem keyOf_parentOpt (k : Int) : keyOf (parentOpt k) = k := by
+  unfold parentOpt; by_cases h : k = 0 <;> simp [h, keyOf]
+
+theorem setKeyE_same (E : Int → List (Int × Ent)) (k : Int) (L : List (Int × Ent)) : setKeyE E k L k = L := by
+  simp [setKeyE]
+
+theorem setKeyE_other (E : Int → List (Int × Ent)) {k k' : Int} (L : List (Int × Ent)) (h : k' ≠ k) :
+    setKeyE E k L k' = E k' := by
+  simp [setKeyE, h]
+
+theorem entIds_setKeyE (E : Int → List (Int × Ent)) (l : Int) (L : List (Int × Ent)) :
+    (fun k => (setKeyE E l L k).map (·.1)) = setKey (fun k => (E k).map (·.1)) l (L.map (·.1)) := by
+  funext k
+  by_cases hk : k = l
+  · subst hk; simp [setKeyE]
+  · simp [setKeyE, setKey, hk]
+
+theorem pair_eq_of_fst {L : List (Int × Ent)} (hn : (L.map (·.1)).Nodup) {p q : Int × Ent} (hp : p ∈ L) (hq : q ∈ L)
+    (h : p.1 = q.1) : p = q := by
+  induction L with
+  | nil => simp at hp
+  | cons a L ih =>
+    simp only [List.map_cons, List.nodup_cons, List.mem_map, not_exists, not_and] at hn
+    rcases List.mem_cons.mp hp with h1 | h1 <;> rcases List.mem_cons.mp hq with h2 | h2
+    · rw [h1, h2]
+    · subst h1; exact absurd h.symm (hn.1 q h2)
+    · subst h2; exact absurd h (hn.1 p h1)
+    · exact ih hn.2 h1 h2
+
+theorem map_fst_dropEnt {L : List (Int × Ent)} (hn : (L.map (·.1)).Nodup) (e : Int) :
+    (dropEnt L e).map (·.1) = (L.map (·.1)).erase e := by
+  induction L with
+  | nil => rfl
+  | cons a L ih =>
+    have hn' : a.1 ∉ L.map (·.1) ∧ (L.map (·.1)).Nodup := List.nodup_cons.mp hn
+    unfold dropEnt at ih ⊢
+    by_cases hae : a.1 = e
+    · have h1 : (a.1 != e) = false := by simp [hae]
+      rw [List.filter_cons_of_neg (by simp [hae]), List.map_cons, hae, List.erase_cons_head]
+      -- no other entry carries the id e
+      have : L.filter (fun p => p.1 != e) = L := by
+        apply List.filter_eq_self.mpr
+        intro p hp
+        have : p.1 ≠ e := by
+          intro e'; apply hn'.1; rw [hae, ← e']; exact List.mem_map.mpr ⟨p, hp, rfl⟩
+        simpa using this
+      rw [this]
+    · rw [List.filter_cons_of_pos (by simpa using hae), List.map_cons, List.map_cons,
+        List.erase_cons_tail (by simpa using hae), ih hn'.2]
+
+/-- An entry of the Spec's listing has its row, with the recorded payload. -/
+theorem ChInv.row_of_entry {S : Ord} {d : Db} (hI : ChInv S d) {l : Int} {p : Int × Ent} (hp : p ∈ S.ents l) :
+    ∃ r ∈ d.pe, r.id = p.1 ∧ r.key = l ∧ r.val = p.2 := by
+  have hm : p.1 ∈ S.entIds l := List.mem_map.mpr ⟨p, hp, rfl⟩
+  obtain ⟨r, hr, e1, e2⟩ := hI.re.cover l p.1 hm
+  refine ⟨r, hr, e1, e2, ?_⟩
+  have h1 := hI.pay (core r) (mem_cores.mpr ⟨r, hr, rfl⟩)
+  simp only [core] at h1
+  rw [e2] at h1
+  have := pair_eq_of_fst (hI.re.nodup l) h1 hp (by simpa using e1)
+  rw [← this]
+
+/-- The row found by the SELECT on (list, track, database) is the entry the Spec finds in its own listing. -/
+theorem ChInv.find_some {S : Ord} {d : Db} (hI : ChInv S d) {l t u : Int} {e : Row Ent} (h : peFind d l t u = some e) :
+    S.find l t u = some (e.id, e.val) := by
+  obtain ⟨hce, hem, hel, hev⟩ := lookup_core h
+  have hin : (e.id, e.val) ∈ S.ents l := by
+    have := hI.pay (core e) hce; simpa [core, hel] using this
+  unfold Ord.find
+  apply find?_unique hin (by simp [hev])
+  intro q hq hqp
+  obtain ⟨r, hr, e1, e2, e3⟩ := hI.row_of_entry hq
+  simp only [Bool.and_eq_true, beq_iff_eq] at hqp
+  have hrv : r.val = ⟨t, u⟩ := by rw [e3]; exact ent_eq.mpr hqp
+  have := hI.pairs.pair_unique (core r) (mem_cores.mpr ⟨r, hr, rfl⟩) (core e) hce (by simp [core, e2, hel])
+    (by simp [core, hrv, hev])
+  have hid : r.id = e.id := congrArg (·.1) this
+  have hval : r.val = e.val := by rw [hrv, hev]
+  cases q with
+  | mk a b => simp only at e1 e3; rw [← e1, ← e3, hid, hval]
+
+theorem ChInv.find_none {S : Ord} {d : Db} (hI : ChInv S d) {l t u : Int} (h : peFind d l t u = none) :
+    S.find l t u = none := by
+  unfold Ord.find
+  rw [List.find?_eq_none]
+  intro q hq hqp
+  obtain ⟨r, hr, _, e2, e3⟩ := hI.row_of_entry hq
+  simp only [Bool.and_eq_true, beq_iff_eq] at hqp
+  exact lookup_none h (core r) (mem_cores.mpr ⟨r, hr, rfl⟩) ⟨e2, by simp only [core]; rw [e3]; exact ent_eq.mpr hqp⟩
 
 theorem ids_subset_of_cores_filter {α : Type} {t t' : Table α} {q : Int × Int × α → Bool}
     (h : cores t' = (cores t).filter q) : ∀ i ∈ ids t', i ∈ ids t := by
@@ -275,8 +378,20 @@ theorem next_zero_or_mem {α : Type} {A : Int → List Int} {t : Table α} (h : 
   rw [h.next r hr]; exact succ_mem_or_zero _ _
 
 theorem ordStep_ok {S : Ord} {d : Db} {op : Op} {d' : Db} {out : Out} (h : step d op = (d', .ok out)) :
-    ordStep S d op = ordOk S d op out := by
-  unfold ordStep; rw [h]
+    ordStep S d op = ordOk S (absF d) op out := by
+  unfold ordStep ordNext; rw [h]
+
+theorem ordOk_setParent {S : Ord} {d : Db} {c : Int} {p : Option Int} {row : Row Bytes} (hg : get d.pl c = some row)
+    (out : Out) :
+    ordOk S (absF d) (.setParent c p) out =
+      if row.key != keyOf p then { S with kids := moveKid S.kids row.key (keyOf p) c } else S := by
+  simp only [ordOk, live_of_get hg, absF_parentOf_get hg, keyOf_parentOpt, Bool.true_and]
+
+theorem ordOk_removeCrate {S : Ord} {d : Db} {c : Int} {row : Row Bytes} (hg : get d.pl c = some row) (out : Out) :
+    ordOk S (absF d) (.removeCrate c) out =
+      { kids := clearKeys (setKey S.kids row.key ((S.kids row.key).erase c)) (c :: descendantIds d.pl c),
+        ents := clearKeysE S.ents (c :: descendantIds d.pl c) } := by
+  simp only [ordOk, live_of_get hg, absF_parentOf_get hg, keyOf_parentOpt, if_true, descendantIds_eq]
 
 theorem chInv_createRoot {S : Ord} {d : Db} (hI : ChInv S d) (name : Bytes) :
     ChInv (ordStep S d (.createRoot name)) (step d (.createRoot name)).1 := by
@@ -423,8 +538,7 @@ theorem chInv_setParentCore {S : Ord} {d : Db} (hI : ChInv S d) {c : Int} {p : O
       · have hc' : titleClash d.pl c row.key row.val = false := by simpa using hc
         rw [plUpdate_same d hv hg hc'] at hstep
         refine chInv_setVal hI hstep ?_
-        rw [ordStep_ok hstep]
-        simp only [ordOk, hg, hk']
+        rw [ordStep_ok hstep, ordOk_setParent hg, hk']
         rfl
     · have hk' : (row.key != keyOf p) = true := by simpa using hk
       rw [hk'] at hstep
@@ -435,8 +549,8 @@ theorem chInv_setParentCore {S : Ord} {d : Db} (hI : ChInv S d) {c : Int} {p : O
       · have hc' : titleClash d.pl c (keyOf p) row.val = false := by simpa using hc
         rw [plUpdate_move d 0 hv hg hk hc'] at hstep
         have hord : ordStep S d (.setParent c p) = { S with kids := moveKid S.kids row.key (keyOf p) c } := by
-          rw [ordStep_ok hstep]
-          simp only [ordOk, hg, hk', if_true]
+          rw [ordStep_ok hstep, ordOk_setParent hg, hk']
+          rfl
         rw [hord, hstep]
         unfold moveKid
         have hm := R_move hI.rk hrow (nk := keyOf p) (target := 0) (fun e => hk e.symm) (Or.inl rfl) row.val
@@ -483,6 +597,28 @@ theorem chInv_setParent {S : Ord} {d : Db} (hI : ChInv S d) (c : Int) (p : Optio
 
 /-! ### remove_crate -/
 
+theorem cores_foldl_clearKey {t : Table Ent} (hn : (ids t).Nodup) (G : List Int) :
+    cores (G.foldl (fun t i => clearKey fires t i) t) = (cores t).filter (fun c => !G.contains c.2.1) := by
+  induction G generalizing t with
+  | nil =>
+    simp only [List.foldl_nil, List.contains_nil, Bool.not_false]
+    exact (List.filter_eq_self.mpr (fun _ _ => rfl)).symm
+  | cons g G ih =>
+    simp only [List.foldl_cons]
+    have h1 := cores_clearKey fires hn g
+    have hn1 : (ids (clearKey fires t g)).Nodup := by
+      rw [ids_eq_cores, h1]
+      rw [ids_eq_cores] at hn
+      exact List.Nodup.sublist (List.Sublist.map _ List.filter_sublist) hn
+    rw [ih hn1, h1, List.filter_filter]
+    apply List.filter_congr
+    intro c _
+    by_cases hcg : c.2.1 = g
+    · simp [hcg, List.contains_cons]
+    · have : (c.2.1 == g) = false := by simpa using hcg
+      rw [contains_cons_ne hcg]
+      simp [hcg]
+
 theorem chInv_removeCrate {S : Ord} {d : Db} (hI : ChInv S d) (c : Int) :
     ChInv (ordStep S d (.removeCrate c)) (step d (.removeCrate c)).1 := by
   by_cases he : plExists d c = true
@@ -497,11 +633,20 @@ theorem chInv_removeCrate {S : Ord} {d : Db} (hI : ChInv S d) (c : Int) :
     obtain ⟨hrow, hid⟩ := get_some hg
     have hord : ordStep S d (.removeCrate c) =
         { kids := clearKeys (setKey S.kids row.key ((S.kids row.key).erase c)) (c :: descendantIds d.pl c),
-          ents := clearKeys S.ents (c :: descendantIds d.pl c) } := by
-      rw [ordStep_ok hstep]; simp only [ordOk, hg]
+          ents := clearKeysE S.ents (c :: descendantIds d.pl c) } := by
+      rw [ordStep_ok hstep, ordOk_removeCrate hg]
     rw [hord, hstep]
     -- entries
-    obtain ⟨hpe, hfires⟩ := R_foldl_clearKey hI.re fires fires_val hI.fires (c :: descendantIds d.pl c)
+    obtain ⟨hpe0, hfires⟩ := R_foldl_clearKey hI.re fires fires_val hI.fires (c :: descendantIds d.pl c)
+    have hpe : R (fun l => (clearKeysE S.ents (c :: descendantIds d.pl c) l).map (·.1))
+        ((c :: descendantIds d.pl c).foldl (fun t i => clearKey fires t i) d.pe) := by
+      refine R_congr hpe0 ?_
+      intro k
+      unfold clearKeysE Ord.entIds
+      split <;> simp
+    have hcpe : cores ((c :: descendantIds d.pl c).foldl (fun t i => clearKey fires t i) d.pe)
+        = (cores d.pe).filter (fun k => !(c :: descendantIds d.pl c).contains k.2.1) :=
+      cores_foldl_clearKey hI.re.ids_nodup _
     -- siblings: the row itself, then the descendants
     have hclosed := gone_closed hn hpos hc
     have hcores : cores ((c :: descendantIds d.pl c).foldl deleteCascade d.pl)
@@ -551,7 +696,15 @@ theorem chInv_removeCrate {S : Ord} {d : Db} (hI : ChInv S d) (c : Int) :
         have hkc : k ≠ c := fun e => hk' (e ▸ List.mem_cons_self)
         rw [setKey_other _ _ hkc]
     unfold plRemove
-    refine ⟨hkids, hpe, hfires, ?_, hI.plSeq0, ?_, hI.peSeq0, hI.trPos, hI.trSeq0⟩
+    refine ⟨hkids, hpe, ?_, by rw [hcpe]; exact hI.pairs.filter _, hfires, ?_, hI.plSeq0, ?_, hI.peSeq0, hI.trPos, hI.trSeq0⟩
+    · intro k hk
+      rw [hcpe] at hk
+      obtain ⟨hk1, hk2⟩ := List.mem_filter.mp hk
+      have hk2' : (c :: descendantIds d.pl c).contains k.2.1 = false := by simpa using hk2
+      show (k.1, k.2.2) ∈ clearKeysE S.ents (c :: descendantIds d.pl c) k.2.1
+      unfold clearKeysE
+      rw [hk2']
+      exact hI.pay k hk1
     · intro i hi
       exact hI.plSeq i (ids_subset_of_cores_filter hcores i hi)
     · intro i hi
@@ -563,8 +716,8 @@ theorem chInv_removeCrate {S : Ord} {d : Db} (hI : ChInv S d) (c : Int) :
 
 theorem chInv_addBack {S : Ord} {d : Db} (hI : ChInv S d) {op : Op} {l t u : Int} {f : Bool} (ht : 0 < t)
     (hstep : step d op = peAddBack d l t u f)
-    (hord : ∀ out, ordOk S d op out = (match out with
-      | some e => if (peFind d l t u).isNone then { S with ents := setKey S.ents l (S.ents l ++ [e]) } else S
+    (hord : ∀ out, ordOk S (absF d) op out = (match out with
+      | some e => if (S.find l t u).isNone then { S with ents := setKeyE S.ents l (S.ents l ++ [(e, ⟨t, u⟩)]) } else S
       | none => S)) :
     ChInv (ordStep S d op) (step d op).1 := by
   unfold peAddBack at hstep
@@ -576,17 +729,31 @@ theorem chInv_addBack {S : Ord} {d : Db} (hI : ChInv S d) {op : Op} {l t u : Int
     | false =>
       simp only [Bool.false_eq_true, if_false] at hstep
       rw [ordStep_ok hstep, hord, hstep]
-      simp only [hg, Option.isNone_some, Bool.false_eq_true, if_false]
+      simp only [hI.find_some hg, Option.isNone_some, Bool.false_eq_true, if_false]
       exact hI
   | none =>
     rw [hg] at hstep
     simp only at hstep
     rw [ordStep_ok hstep, hord, hstep]
-    simp only [hg, Option.isNone_none, if_true]
+    simp only [hI.find_none hg, Option.isNone_none, if_true]
     have hfresh : d.peSeq + 1 ∉ ids d.pe := by
       intro h; have := hI.peSeq _ h; omega
     have hpos : 0 < d.peSeq + 1 := by have := hI.peSeq0; omega
-    refine hI.withPe (R_appendBack hI.re ⟨t, u⟩ hpos hfresh) ?_ ?_ (by omega)
+    have hR := R_appendBack hI.re (k := l) (⟨t, u⟩ : Ent) hpos hfresh
+    refine hI.withPe ?_ ?_ (pairsOk_append hI.pairs hfresh hg) ?_ ?_ (by omega)
+    · rw [entIds_setKeyE]
+      have : (S.ents l ++ [(d.peSeq + 1, (⟨t, u⟩ : Ent))]).map (·.1) = S.entIds l ++ [d.peSeq + 1] := by
+        simp [Ord.entIds]
+      rw [this]
+      exact hR
+    · rw [cores_appendBack]
+      intro k hk
+      simp only [List.mem_append, List.mem_singleton] at hk
+      rcases hk with hk | rfl
+      · by_cases hkl : k.2.1 = l
+        · rw [hkl, setKeyE_same]; exact List.mem_append_left _ (hkl ▸ hI.pay k hk)
+        · rw [setKeyE_other _ _ hkl]; exact hI.pay k hk
+      · simp [setKeyE]
     · intro r hr
       rcases mem_appendBack hr with ⟨r0, hr0, _, e⟩ | ⟨_, e⟩
       · rw [fires_val r r0 e]; exact hI.fires r0 hr0
@@ -598,40 +765,109 @@ theorem chInv_addBack {S : Ord} {d : Db} (hI : ChInv S d) {op : Op} {l t u : Int
       · rw [← ids_eq_cores] at hi; have := hI.peSeq i hi; omega
       · omega
 
-theorem chInv_deleteKeyed {S : Ord} {d : Db} (hI : ChInv S d) {op : Op} {l e : Int}
+/-- `DELETE … WHERE listId = l AND id = e` of a row that is there: the entry `e` leaves the listing of `l`. -/
+theorem chInv_deleteKeyed {S : Ord} {d : Db} (hI : ChInv S d) {op : Op} {l e : Int} {row : Row Ent}
+    (hrow : row ∈ d.pe) (hid : row.id = e) (hkey : row.key = l)
     (hstep : step d op = ({ d with pe := deleteKeyed fires d.pe l e }, .ok none))
-    (hord : ordStep S d op = { S with ents := setKey S.ents l ((S.ents l).erase e) }) :
+    (hord : ordStep S d op = { S with ents := setKeyE S.ents l (dropEnt (S.ents l) e) }) :
     ChInv (ordStep S d op) (step d op).1 := by
   rw [hord, hstep]
-  exact hI.withPe (seq := d.peSeq) (R_deleteKeyed hI.re fires hI.fires l e) (deleteKeyed_fires fires fires_val hI.fires l e)
-    (fun i hi => hI.peSeq i (ids_deleteKeyed_sub fires _ _ _ i hi)) hI.peSeq0
+  have hcores : cores (deleteKeyed fires d.pe l e) = (cores d.pe).filter (fun c => c.1 != e) := by
+    apply cores_deleteKeyed
+    intro r hr he
+    have := eq_of_id_eq hI.re.ids_nodup hr hrow (he.trans hid.symm)
+    rw [this, hkey]
+  refine hI.withPe (seq := d.peSeq) ?_ ?_ (by rw [hcores]; exact hI.pairs.filter _)
+    (deleteKeyed_fires fires fires_val hI.fires l e) (fun i hi => hI.peSeq i (ids_deleteKeyed_sub fires _ _ _ i hi)) hI.peSeq0
+  · rw [entIds_setKeyE, map_fst_dropEnt (hI.re.nodup l)]
+    exact R_deleteKeyed hI.re fires hI.fires l e
+  · intro k hk
+    rw [hcores] at hk
+    obtain ⟨hk1, hk2⟩ := List.mem_filter.mp hk
+    by_cases hkl : k.2.1 = l
+    · rw [hkl, setKeyE_same]
+      unfold dropEnt
+      exact List.mem_filter.mpr ⟨hkl ▸ hI.pay k hk1, by simpa using hk2⟩
+    · rw [setKeyE_other _ _ hkl]; exact hI.pay k hk1
 
 theorem chInv_clearKey {S : Ord} {d : Db} (hI : ChInv S d) {op : Op} {l : Int}
     (hstep : step d op = ({ d with pe := clearKey fires d.pe l }, .ok none))
-    (hord : ordStep S d op = { S with ents := setKey S.ents l [] }) :
+    (hord : ordStep S d op = { S with ents := setKeyE S.ents l [] }) :
     ChInv (ordStep S d op) (step d op).1 := by
   rw [hord, hstep]
-  exact hI.withPe (seq := d.peSeq) (R_clearKey hI.re fires fires_val hI.fires l) (clearKey_fires fires fires_val hI.fires l)
-    (fun i hi => hI.peSeq i (ids_clearKey_sub fires _ _ i hi)) hI.peSeq0
+  have hcores := cores_clearKey fires hI.re.ids_nodup l
+  refine hI.withPe (seq := d.peSeq) ?_ ?_ (by rw [hcores]; exact hI.pairs.filter _)
+    (clearKey_fires fires fires_val hI.fires l) (fun i hi => hI.peSeq i (ids_clearKey_sub fires _ _ i hi)) hI.peSeq0
+  · rw [entIds_setKeyE]
+    exact R_clearKey hI.re fires fires_val hI.fires l
+  · intro k hk
+    rw [hcores] at hk
+    obtain ⟨hk1, hk2⟩ := List.mem_filter.mp hk
+    have hkl : k.2.1 ≠ l := by simpa using hk2
+    rw [setKeyE_other _ _ hkl]; exact hI.pay k hk1
 
 theorem chInv_removeTrack {S : Ord} {d : Db} (hI : ChInv S d) (t : Int) :
     ChInv (ordStep S d (.removeTrack t)) (step d (.removeTrack t)).1 := by
   by_cases hc : t ∈ d.tracks
   · have hstep : step d (.removeTrack t) = ({ d with
-        pe := (ids d.pl).foldl (fun pe l =>
-          match (pe.filter (fun r => r.key == l && r.val.track == t)).getLast? with
-          | some e => deleteKeyed fires pe l e.id
-          | none => pe) d.pe,
-        tracks := d.tracks.filter (· != t) }, .ok none) := by
+        pe := (ids d.pl).foldl (rmTrackIn t) d.pe, tracks := d.tracks.filter (· != t) }, .ok none) := by
       have hct : d.tracks.contains t = true := List.contains_iff_mem.mpr hc
       show (if d.tracks.contains t then _ else _) = _
       rw [if_pos hct]
-      rfl
     rw [ordStep_ok hstep, hstep]
-    obtain ⟨h1, h2, h3⟩ := R_foldl_removeTrack fires fires_val t (ids d.pl) hI.rk.ids_nodup d.pe S.ents hI.re hI.fires
-    refine ⟨hI.rk, h1, h2, hI.plSeq, hI.plSeq0, fun i hi => hI.peSeq i (h3 i hi), hI.peSeq0, ?_, hI.trSeq0⟩
-    intro x hx
-    exact hI.trPos x (List.mem_filter.mp hx).1
+    obtain ⟨h1, h2, h3⟩ := R_foldl_removeTrack t (ids d.pl) hI.rk.ids_nodup d.pe S.entIds hI.re hI.fires
+    have hcores := cores_foldl_removeTrack t (ids d.pl) d.pe hI.pairs
+    -- what the Spec prescribes for list l, against what the loop found there
+    have hent : ∀ l, ((ordOk S (absF d) (.removeTrack t) none).ents l).map (·.1) =
+        (if (ids d.pl).contains l then
+          (match lookup d.pe l t 0 with
+           | some e => (S.entIds l).erase e.id
+           | none => S.entIds l)
+        else S.entIds l) := by
+      intro l
+      simp only [ordOk, absF_ids]
+      by_cases hl : (ids d.pl).contains l = true
+      · rw [if_pos hl, if_pos hl]
+        cases hf : peFind d l t 0 with
+        | some e =>
+          have hf' : lookup d.pe l t 0 = some e := hf
+          rw [hI.find_some hf, hf']
+          simp only
+          exact map_fst_dropEnt (hI.re.nodup l) e.id
+        | none =>
+          have hf' : lookup d.pe l t 0 = none := hf
+          rw [hI.find_none hf, hf']
+          rfl
+      · rw [if_neg hl, if_neg hl]; rfl
+    refine ⟨hI.rk, R_congr h1 hent, ?_, by rw [hcores]; exact hI.pairs.filter _, h2, hI.plSeq, hI.plSeq0,
+      fun i hi => hI.peSeq i (h3 i hi), hI.peSeq0, ?_, hI.trSeq0⟩
+    · intro k hk
+      rw [hcores] at hk
+      obtain ⟨hk1, hk2⟩ := List.mem_filter.mp hk
+      show (k.1, k.2.2) ∈ (ordOk S (absF d) (.removeTrack t) none).ents k.2.1
+      simp only [ordOk, absF_ids]
+      by_cases hl : (ids d.pl).contains k.2.1 = true
+      · rw [if_pos hl]
+        have hval : k.2.2 ≠ (⟨t, 0⟩ : Ent) := by
+          intro e; rw [hl] at hk2; simp [e] at hk2
+        cases hf : S.find k.2.1 t 0 with
+        | none => exact hI.pay k hk1
+        | some p =>
+          simp only
+          unfold dropEnt
+          refine List.mem_filter.mpr ⟨hI.pay k hk1, ?_⟩
+          have hp1 := List.mem_of_find?_eq_some hf
+          have hp2 := List.find?_some hf
+          simp only [Bool.and_eq_true, beq_iff_eq] at hp2
+          simp only [bne_iff_ne, ne_eq]
+          intro e
+          have := pair_eq_of_fst (hI.re.nodup k.2.1) (hI.pay k hk1) hp1 e
+          apply hval
+          have h2 : k.2.2 = p.2 := congrArg (·.2) this
+          rw [h2]; exact ent_eq.mpr hp2
+      · rw [if_neg hl]; exact hI.pay k hk1
+    · intro x hx
+      exact hI.trPos x (List.mem_filter.mp hx).1
   · exact chInv_throw (e := .invalid_argument) hI (by simp [step, hc])
 
 theorem chInv_step {S : Ord} {d : Db} (hI : ChInv S d) (op : Op) (hok : okOp op = true) :
@@ -647,7 +883,7 @@ theorem chInv_step {S : Ord} {d : Db} (hI : ChInv S d) (op : Op) (hok : okOp op 
   | createTrack =>
     have hstep : step d .createTrack = ({ d with tracks := d.tracks ++ [d.trSeq + 1], trSeq := d.trSeq + 1 }, .ok (some (d.trSeq + 1))) := rfl
     rw [ordStep_ok hstep, hstep]
-    refine ⟨hI.rk, hI.re, hI.fires, hI.plSeq, hI.plSeq0, hI.peSeq, hI.peSeq0, ?_, by have := hI.trSeq0; show 0 ≤ d.trSeq + 1; omega⟩
+    refine ⟨hI.rk, hI.re, hI.pay, hI.pairs, hI.fires, hI.plSeq, hI.plSeq0, hI.peSeq, hI.peSeq0, ?_, by have := hI.trSeq0; show 0 ≤ d.trSeq + 1; omega⟩
     intro x hx
     simp only [List.mem_append, List.mem_singleton] at hx
     rcases hx with hx | hx
@@ -662,14 +898,15 @@ theorem chInv_step {S : Ord} {d : Db} (hI : ChInv S d) (op : Op) (hok : okOp op 
     · have he' : plExists d c = false := by simpa using he
       exact chInv_throw (e := exn "crate_deleted") hI (by simp [step, he'])
   | removeTrackFrom c t =>
-    cases hg : peGet d c t with
+    cases hg : peFind d c t 0 with
     | some e =>
-      refine chInv_deleteKeyed hI (l := c) (e := e.id) (by simp [step, hg]) ?_
+      obtain ⟨_, hem, hek, _⟩ := lookup_core hg
       have hstep : step d (.removeTrackFrom c t) = ({ d with pe := deleteKeyed fires d.pe c e.id }, .ok none) := by simp [step, hg]
-      rw [ordStep_ok hstep]; simp only [ordOk, hg]
+      refine chInv_deleteKeyed hI hem rfl hek hstep ?_
+      rw [ordStep_ok hstep]; simp only [ordOk, hI.find_some hg]
     | none =>
       have hstep : step d (.removeTrackFrom c t) = (d, .ok none) := by simp [step, hg]
-      rw [ordStep_ok hstep, hstep]; simp only [ordOk, hg]; exact hI
+      rw [ordStep_ok hstep, hstep]; simp only [ordOk, hI.find_none hg]; exact hI
   | clearTracks c =>
     refine chInv_clearKey hI (l := c) rfl ?_
     have hstep : step d (.clearTracks c) = ({ d with pe := clearKey fires d.pe c }, .ok none) := rfl
@@ -683,19 +920,30 @@ theorem chInv_step {S : Ord} {d : Db} (hI : ChInv S d) (op : Op) (hok : okOp op 
     · have hc' : ((rowsOf d.pe l).find? (·.id == e)).isNone = false := by simpa using hc
       have hstep : step d (.peRemove l e) = ({ d with pe := deleteKeyed fires d.pe l e }, .ok none) := by
         simp only [step, hc']; rfl
-      refine chInv_deleteKeyed hI hstep ?_
+      obtain ⟨row, hrow⟩ : ∃ row, (rowsOf d.pe l).find? (·.id == e) = some row := by
+        cases hf : (rowsOf d.pe l).find? (·.id == e) with
+        | none => rw [hf] at hc'; simp at hc'
+        | some row => exact ⟨row, rfl⟩
+      obtain ⟨h1, h2, h3⟩ := find_rowsOf hI.re hrow
+      refine chInv_deleteKeyed hI h1 h2 h3 hstep ?_
       rw [ordStep_ok hstep]; rfl
   | peClear l =>
     refine chInv_clearKey hI (l := l) rfl ?_
     have hstep : step d (.peClear l) = ({ d with pe := clearKey fires d.pe l }, .ok none) := rfl
     rw [ordStep_ok hstep]; rfl
 
-theorem chInv_run {S : Ord} {d : Db} (hI : ChInv S d) (ops : List Op) (hok : ops.all okOp = true) :
-    ChInv (ordRun d S ops) (run d ops) := by
+/-- The Spec run (forest by `judgeF`, lists by `ordNext`, both from the Model's answers only) never objects,
+its forest is the abstraction of the Playlist table, and its lists are represented by the tables. -/
+theorem chInv_run {S : Ord} {d : Db} (hI : ChInv S d) (hP : PlInv d) (ops : List Op) (hok : ops.all okOp = true) :
+    ∃ S', specRunO d (absF d) S ops = some (absF (run d ops), S') ∧ ChInv S' (run d ops) := by
   induction ops generalizing S d with
-  | nil => exact hI
+  | nil => exact ⟨S, rfl, hI⟩
   | cons op ops ih =>
     simp only [List.all_cons, Bool.and_eq_true] at hok
-    exact ih (chInv_step hI op hok.1) hok.2
+    obtain ⟨S', h1, h2⟩ := ih (chInv_step hI op hok.1) (plInv_step hP op) hok.2
+    refine ⟨S', ?_, h2⟩
+    simp only [specRunO, run]
+    rw [judgeF_of_fstep hP (fstep hP.wf op)]
+    exact h1
 
 end EngineModel.Db.V2
